@@ -2,9 +2,9 @@
    Only statements here; proofs are in proofs/GenerateSpec.v (and RandomSpec, GenerateScalar). *)
 From Coq Require Import PrimFloat Permutation.
 Require Import D42.Prelude D42.PyFloat D42.Value D42.Regex D42.Schema D42.Validate D42.Conforms
-               D42.PyRandom D42.RegexGen D42.ReSupported D42.Generate D42.Sat.
+               D42.PyRandom D42.RegexGen D42.ReSupported D42.Generate D42.Sat D42.SatB.
 Require Import D42Gen.GenConsts.
-Require Import D42P.ValidateSpec D42P.RandomSpec D42P.GenerateSpec.
+Require Import D42P.ValidateSpec D42P.RandomSpec D42P.GenerateSpec D42P.SatBSpec.
 
 (* For every well-formed schema that is hereditarily satisfiable within the generator's
    reach ([sat], theories/Sat.v), every world (uuid4 / clock / set-iteration order) and EVERY
@@ -102,3 +102,39 @@ Proof. vm_compute. reflexivity. Qed.
 Example ex_gen_other :
   match gen w0 ex_s [7; 3; 2; 5; 1; 9] with Ok (v, _) => verdict ex_s v | _ => false end = true.
 Proof. vm_compute. reflexivity. Qed.
+
+(* [sat] is decidable: [satb] (theories/SatB.v) is a boolean that mirrors it clause by clause,
+   so the hypothesis of [gen_sound] / [gen_validates] can be discharged by computation
+   (proof: proofs/SatBSpec.v, which also has the converse [satb_complete_lemma]). *)
+Theorem satb_sound : forall w s, wf s = true -> satb w s = true -> sat w s.
+Proof. exact satb_sound_lemma. Qed.
+Print Assumptions satb_sound.
+
+Corollary gen_validates_decidable :
+  forall w s, world_ok w -> wf s = true -> satb w s = true ->
+  forall t, exists v t', gen w s t = Ok (v, t') /\ validate Plain s [] v = [].
+Proof.
+  intros w s Hw Hwf Hb. apply (gen_validates w s Hw Hwf). apply (satb_sound w s Hwf Hb).
+Qed.
+Print Assumptions gen_validates_decidable.
+
+Example ex_s_satb : satb w0 ex_s = true.
+Proof. vm_compute. reflexivity. Qed.
+Example ex_pat_satb : satb w0 ex_pat = true.
+Proof. vm_compute. reflexivity. Qed.
+Example f06_satb : satb w0 f06_s = true.
+Proof. vm_compute. reflexivity. Qed.
+Example f07_satb : satb w0 f07_s = true.
+Proof. vm_compute. reflexivity. Qed.
+(* unsatisfiable bounds, alone and as an alternative of an any (F24), and the overflowing
+   scaled bound (F29) are rejected *)
+Example empty_int_satb : satb w0 (SInt None (Some (IInt 1%Z)) (Some (IInt 0%Z))) = false.
+Proof. vm_compute. reflexivity. Qed.
+Example f24_satb : satb w0 f24_s = false.
+Proof. vm_compute. reflexivity. Qed.
+Example f29_satb : satb w0 f29_s = false.
+Proof. vm_compute. reflexivity. Qed.
+(* the decidable hypothesis in use: ex_s generates and validates under every tape *)
+Example ex_s_validates :
+  forall t, exists v t', gen w0 ex_s t = Ok (v, t') /\ validate Plain ex_s [] v = [].
+Proof. exact (gen_validates_decidable w0 ex_s w0_ok ex_wf ex_s_satb). Qed.
